@@ -61,7 +61,7 @@ type wmsg struct {
 func startWorker(ls *loadSpec, id int, ch chan wmsg) (*wproc, error) {
 	self, _ := os.Executable()
 	cmd := exec.Command(self, append([]string{"worker"}, ls.args()...)...)
-	cmd.Env = append(os.Environ(), "GOMAXPROCS=2", "GOGC=200")
+	cmd.Env = append(os.Environ(), "GOMAXPROCS="+envOr("SYMGO_WPROCS", "2"), "GOGC="+envOr("SYMGO_WGOGC", "100"))
 	cmd.Stderr = os.Stderr
 	in, _ := cmd.StdinPipe()
 	outp, _ := cmd.StdoutPipe()
@@ -104,19 +104,45 @@ type exploreOpts struct {
 	Verbose  bool
 }
 
-func explore(ls *loadSpec, o exploreOpts) *ExploreResult {
+// pool is a set of worker processes that have loaded one package together
+// with a set of harness files; it serves any harness function in them.
+type pool struct {
+	ls       *loadSpec
+	workers  []*wproc
+	ch       chan wmsg
+	starting int
+}
+
+func newPool(ls *loadSpec) *pool {
+	return &pool{ls: ls, ch: make(chan wmsg, 256)}
+}
+
+func (p *pool) spawn() {
+	w, err := startWorker(p.ls, len(p.workers), p.ch)
+	if err != nil {
+		fatal("%v", err)
+	}
+	p.workers = append(p.workers, w)
+	p.starting++
+}
+
+func (p *pool) close() {
+	for _, w := range p.workers {
+		w.in.Write([]byte("{\"quit\":true}\n"))
+		w.in.Close()
+	}
+	for _, w := range p.workers {
+		w.cmd.Wait()
+	}
+	p.workers = nil
+}
+
+func explore(p *pool, ls *loadSpec, o exploreOpts) *ExploreResult {
 	t0 := time.Now()
 	res := &ExploreResult{Fn: ls.Fn, Params: ls.Params, Reach: map[string]int{}, AbortWhy: map[string]int{}, Notes: map[string]int{}}
-	ch := make(chan wmsg, 64)
-	var workers []*wproc
-	spawn := func() {
-		w, err := startWorker(ls, len(workers), ch)
-		if err != nil {
-			fatal("%v", err)
-		}
-		workers = append(workers, w)
+	if len(p.workers) == 0 {
+		p.spawn()
 	}
-	spawn()
 	queue := [][]interp.Dec{{}}
 	inflight := 0
 	nextID := 0
@@ -125,8 +151,11 @@ func explore(ls *loadSpec, o exploreOpts) *ExploreResult {
 	stubs := map[string]bool{}
 	perLabel := map[string]int{}
 	capped := false
+	done := 0
+	var pathWall float64
 	send := func(w *wproc, prefix []interp.Dec) {
-		job := interp.Job{ID: nextID, Prefix: prefix}
+		job := interp.Job{ID: nextID, Prefix: prefix, Fn: ls.Fn, Params: ls.Params, Overrides: ls.Overrides,
+			TimeoutMS: ls.TimeoutMS, MaxSteps: ls.MaxSteps, XCheck: ls.XCheck}
 		nextID++
 		if samples < o.Samples {
 			job.Sample = true
@@ -138,7 +167,7 @@ func explore(ls *loadSpec, o exploreOpts) *ExploreResult {
 		w.in.Write(append(b, '\n'))
 	}
 	dispatch := func() {
-		for _, w := range workers {
+		for _, w := range p.workers {
 			if len(queue) == 0 {
 				return
 			}
@@ -148,36 +177,46 @@ func explore(ls *loadSpec, o exploreOpts) *ExploreResult {
 					return
 				}
 				// LIFO: depth first keeps the queue small
-				p := queue[len(queue)-1]
+				pr := queue[len(queue)-1]
 				queue = queue[:len(queue)-1]
-				send(w, p)
+				send(w, pr)
 			}
 		}
 	}
-	starting := 1
 	lastLog := time.Now()
 	for {
 		dispatch()
-		// grow the pool while there is a backlog
-		for len(workers) < o.Workers && len(queue) > starting && starting < 8 && !capped {
-			spawn()
-			starting++
+		// grow the pool while the backlog is worth a worker start-up (~4 s of CPU)
+		if !capped && len(p.workers) < o.Workers && p.starting < 6 && len(queue) > p.starting {
+			avg := 0.3
+			if done > 0 {
+				avg = pathWall / float64(done)
+			}
+			backlog := float64(len(queue)) * avg / float64(len(p.workers))
+			if backlog > 1.0 {
+				n := int(backlog / 1.0)
+				for i := 0; i < n && len(p.workers) < o.Workers && p.starting < 6; i++ {
+					p.spawn()
+				}
+			}
 		}
-		if inflight == 0 && starting == 0 && (len(queue) == 0 || capped) {
+		if inflight == 0 && (len(queue) == 0 || capped) {
 			break
 		}
-		m := <-ch
+		m := <-p.ch
 		if m.err != nil {
 			fatal("%v", m.err)
 		}
 		if m.res == nil { // ready
 			m.w.busy = false
-			starting--
+			p.starting--
 			continue
 		}
 		m.w.busy = false
 		inflight--
+		done++
 		r := m.res
+		pathWall += float64(r.WallNS) / 1e9
 		switch r.Outcome {
 		case "ok":
 			res.Paths++
@@ -216,13 +255,12 @@ func explore(ls *loadSpec, o exploreOpts) *ExploreResult {
 			res.ViolPaths++
 		}
 		for _, v := range r.Violations {
-			perLabel[v.Label]++
-			if perLabel[v.Label] <= o.MaxViol {
-				res.Violations = append(res.Violations, v)
-			} else {
+			k := v.Label + "|" + v.Msg
+			perLabel[k]++
+			if perLabel[k] > o.MaxViol {
 				v.Model = nil
-				res.Violations = append(res.Violations, v)
 			}
+			res.Violations = append(res.Violations, v)
 		}
 		if r.Sample != nil {
 			res.Samples = append(res.Samples, *r.Sample)
@@ -230,15 +268,8 @@ func explore(ls *loadSpec, o exploreOpts) *ExploreResult {
 		res.Scripts = append(res.Scripts, r.Scripts...)
 		if o.Verbose && time.Since(lastLog) > 10*time.Second {
 			lastLog = time.Now()
-			fmt.Fprintf(os.Stderr, "  [%s] paths=%d pruned=%d aborted=%d queue=%d workers=%d viol=%d %.0fs\n", ls.Fn, res.Paths, res.Pruned, res.Aborted, len(queue), len(workers), res.ViolPaths, time.Since(t0).Seconds())
+			fmt.Fprintf(os.Stderr, "  [%s] paths=%d pruned=%d aborted=%d queue=%d workers=%d viol=%d %.0fs\n", ls.Fn, res.Paths, res.Pruned, res.Aborted, len(queue), len(p.workers), res.ViolPaths, time.Since(t0).Seconds())
 		}
-	}
-	for _, w := range workers {
-		w.in.Write([]byte("{\"quit\":true}\n"))
-		w.in.Close()
-	}
-	for _, w := range workers {
-		w.cmd.Wait()
 	}
 	res.Pending = len(queue)
 	for f := range funcs {
@@ -249,7 +280,7 @@ func explore(ls *loadSpec, o exploreOpts) *ExploreResult {
 		res.Stubs = append(res.Stubs, f)
 	}
 	sort.Strings(res.Stubs)
-	res.Workers = len(workers)
+	res.Workers = len(p.workers)
 	res.WallS = time.Since(t0).Seconds()
 	res.Complete = res.Pending == 0 && res.Aborted == 0 && res.Unknown == 0
 	return res
@@ -263,7 +294,9 @@ func exploreMain(args []string) {
 	verbose := fs.Bool("v", true, "")
 	fs.Parse(args)
 	ls := get()
-	r := explore(ls, exploreOpts{Workers: *workers, MaxPaths: *maxp, Samples: 3, MaxViol: 3, Verbose: *verbose})
+	pl := newPool(ls)
+	defer pl.close()
+	r := explore(pl, ls, exploreOpts{Workers: *workers, MaxPaths: *maxp, Samples: 3, MaxViol: 3, Verbose: *verbose})
 	seen := map[string]int{}
 	for _, v := range r.Violations {
 		seen[v.Label+" "+v.Msg]++
@@ -281,4 +314,11 @@ func exploreMain(args []string) {
 	r.Violations = nil
 	b, _ := json.MarshalIndent(r, "", " ")
 	fmt.Println(string(b))
+}
+
+func envOr(k, d string) string {
+	if v := os.Getenv(k); v != "" {
+		return v
+	}
+	return d
 }
